@@ -5,3 +5,6 @@ open SSVerif.Lattice
 #print axioms C12_astar_nonincreasing
 #print axioms C12_astar_paths_are_lattice_sentences
 #print axioms C12_exact_forward_backward
+#print axioms C12_int_bestpath_posterior_le_one
+#print axioms C12_int_bestpath_posterior_dec
+#print axioms C12_int_tables_eq
